@@ -368,6 +368,9 @@ class Series:
     def all(self):
         return self._to_array().all()
 
+    def round(self, decimals=0):
+        return Series([np.round(v, decimals) for v in self._vals], list(self._index), self.name)
+
     def isna(self):
         return Series([symx.is_nan(v) for v in self._vals], list(self._index), self.name)
 
